@@ -322,7 +322,8 @@ class DHEat:
             except OSError:
                 pass
 
-            del socket_dict[s]
+            if s in socket_dict:  # A socket reported both as readable (with an error) and as exceptional was already removed.
+                del socket_dict[s]
 
         # Resolve the target into an IP address
         out.d("Resolving target %s..." % aconf.host)
